@@ -62,8 +62,12 @@ func (exec *Executor) execUnaryNode(
 		}
 
 		st, err := exec.executeNestedBoolItem(ctx, node.Operand(), value)
+		if err != nil {
+			// Only non-suppressible errors are returned by predicates.
+			return statusFailed, err
+		}
 		if st != predTrue {
-			return statusNotFound, err
+			return statusNotFound, nil
 		}
 		return exec.executeNextItem(ctx, node, nil, value, found)
 	case ast.UnaryPlus:
